@@ -71,6 +71,12 @@ class FaultHandle:
         self.fault = fault
         self._events: list[Event] = []
         self._cancelled = False
+        # True when cancel() was called from inside a running simulation (by an
+        # event handler of the model): that cancellation is part of the run and
+        # is undone by FaultSchedule.reset(); one made from outside is kept.
+        self._cancelled_in_run = False
+        # ids of this handle's events that have been processed in the current run
+        self._fired: set[int] = set()
 
     @property
     def cancelled(self) -> bool:
@@ -81,7 +87,10 @@ class FaultHandle:
         """Cancel all pending events for this fault."""
         if self._cancelled:
             return
+        from happysimulator.core.sim_future import _get_active_heap
+
         self._cancelled = True
+        self._cancelled_in_run = _get_active_heap() is not None
         for event in self._events:
             event.cancel()
         logger.info("FaultHandle cancelled: %d event(s)", len(self._events))
